@@ -26,6 +26,7 @@ NAMES = ["a", "div", "href", "data-x", "xml:lang", "on-click", "B", "Class", "d"
 # in the trail byte. The harness checks every supplied encoding against encoding_rs (`bad-case-encoding`).
 MB = {"sjis": {"up": [["\u512a", "9744"], ["\u30fe", "8153"], ["\u5256", "9655"], ["\u4f46", "9241"], ["\u5366", "8c54"], ["\u5168", "9153"], ["\u513c", "9956"], ["\u50ee", "9949"], ["\u309e", "8155"], ["\u50be", "8c58"], ["\u30a2", "8341"]], "pairs": [["\u5121", "9953", "\u51b1", "9973"], ["\u30b1", "8350", "\u30d1", "8370"], ["\u5100", "8b56", "\u4e45", "8b76"], ["\u30a5", "8344", "\u30c5", "8364"], ["\u30ac", "834b", "\u30cc", "836b"], ["\u30a9", "8348", "\u30c9", "8368"]], "lo": [["\u50e7", "916d"], ["\u51a4", "996c"], ["\u4e99", "9869"], ["\u514e", "9365"], ["\u51b3", "9972"]], "hi": [["\u30f5", "8395"], ["\u4fd8", "98d8"], ["\u304e", "82ac"], ["\u4f5d", "98c6"]]},
       "big5": {"up": [["\u52a9", "a755"], ["\u4e4e", "a547"], ["\u5200", "a44d"], ["\u4fd0", "ab57"], ["\u4e0f", "c94d"], ["\u4e01", "a442"], ["\u4ed4", "a54a"], ["\u5382", "c944"], ["\u52e9", "e143"], ["\u51f5", "c942"]], "pairs": [["\u5145", "a552", "\u53f5", "a572"], ["\u5144", "a553", "\u53eb", "a573"], ["\u4ed5", "a54b", "\u53f3", "a56b"], ["\u4ead", "ab46", "\u524c", "ab66"], ["\u5189", "a554", "\u53e6", "a574"], ["\u4e03", "a443", "\u52fa", "a463"]], "lo": [["\u51b9", "ca6b"], ["\u52fa", "a463"], ["\u53f0", "a578"], ["\u511f", "c076"], ["\u53e6", "a574"]], "hi": [["\u523a", "a8eb"], ["\u4f4f", "a6ed"], ["\u5018", "add5"], ["\u50c4", "dcb8"]]},
+      "euckr": {"up": [["\uca57", "a54d"], ["\ucf0b", "b148"], ["\uc5a4", "9e4b"], ["\ubeb9", "9642"], ["\ub53f", "8b58"], ["\ub897", "8f52"], ["\ud71e", "c547"], ["\ud10c", "b648"], ["\uac22", "814e"], ["\uc327", "9b51"]], "pairs": [["\ucb7e", "a850", "\ucb98", "a870"], ["\uca58", "a54e", "\uca78", "a56e"], ["\uceb1", "b051", "\ucecc", "b071"], ["\ub1a7", "874a", "\ub1c2", "876a"], ["\uc31d", "9b49", "\uc33b", "9b69"], ["\ucd14", "ac52", "\ucd35", "ac72"]], "lo": [["\ucf39", "b16f"], ["\ud1ee", "b864"], ["\uaf0e", "8466"], ["\ud2ba", "ba6a"], ["\uc5e2", "9e77"]], "hi": [["\ub4b3", "8aac"], ["\uc2fe", "9af2"], ["\uc1b9", "99ae"], ["\ub3fb", "89be"]]},
       "gbk": {"up": [["\u50cb", "834e"], ["\u51ec", "844e"], ["\u4e20", "8148"], ["\u532c", "8550"], ["\u50c9", "834c"], ["\u4e2f", "814e"], ["\u4fbd", "824f"], ["\u4fb0", "8243"], ["\u51f4", "8452"], ["\u532d", "8551"]], "pairs": [["\u50c9", "834c", "\u50f1", "836c"], ["\u51fe", "8454", "\u5247", "8474"], ["\u4fab", "8241", "\u4fdb", "8261"], ["\u4e0f", "8144", "\u4e68", "8164"], ["\u50c1", "8344", "\u50e4", "8364"], ["\u5312", "8541", "\u5346", "8561"]], "lo": [["\u50f4", "836e"], ["\u4ff9", "826f"], ["\u523e", "8470"], ["\u4ff0", "8269"], ["\u4e75", "816d"]], "hi": [["\u4eb2", "c7d7"], ["\u5375", "c2d1"], ["\u5374", "c8b4"], ["\u51a3", "83e2"]]}}
 SAFE_VAL = list("abcxyz019 \"'<>=/-")
 
@@ -34,14 +35,14 @@ def rand_attrseq(rng):
     """Two set_attribute calls with the same name. Names: ASCII letters mixed with 0..2 multi-byte
     characters; the source attribute (if any) is the same name, a trail-byte-case variant of it, a
     case variant of its ASCII part, or something unrelated."""
-    enc = rng.choice(["sjis", "sjis", "big5", "gbk", "utf8"])
+    enc = rng.choice(["sjis", "sjis", "big5", "gbk", "euckr", "gb18030", "utf8"])
     val = lambda: "".join(rng.choice(SAFE_VAL) for _ in range(rng.randrange(0, 4)))
     if enc == "utf8":
         name = rng.choice(["a", "B", "data-x", "\u30a2", "x\u00e9", "Cl"])
         low = name.lower() if name.isascii() else "".join(ch.lower() if ch.isascii() else ch for ch in name)
         src = rng.choice([None, low.encode(), name.encode(), b"zz", name.swapcase().encode() if name.isascii() else name.encode()])
         return "attrseq utf8 %s %s %s %s %s" % (hx(name.encode()), hx(low.encode()), hx(src) if src else "-", hx(val().encode()), hx(val().encode()))
-    t = MB[enc]
+    t = MB["gbk" if enc == "gb18030" else enc]      # two-byte gb18030 = GBK
     parts = []          # (utf8 string, encoded bytes of its lower-cased form, encoded bytes as source variant)
     k = rng.choice(["up", "up", "up", "pairs", "pairs", "lo", "hi"])
     pre = rng.choice(["", "", "a", "X", "d-"])
